@@ -1121,9 +1121,11 @@ impl FloatLiteral {
         let value = self.value();
         match float_type {
             | FloatType::Float32 => {
+                // A decimal literal beyond the range of `f64` arrives here as an
+                // infinity: it is as much out of range as one that only
+                // overflows when narrowed.
                 let narrowed = value as f32;
-                (!value.is_finite() || narrowed.is_finite())
-                    .then(|| Self::from_f32_bits(narrowed.to_bits()))
+                narrowed.is_finite().then(|| Self::from_f32_bits(narrowed.to_bits()))
             }
             | FloatType::Float64 => Some(Self::from_bits(value.to_bits())),
         }
